@@ -46,5 +46,13 @@ package proxy
 //@ func insertScriptTagIntoBody [C20]
 //@   ensures implies(err != nil, updated == body)
 
-// parseNonce: no index or slice panic on any header value
+// parseNonce: no index or slice panic on any header value; the nonce handed to the reload script is only ever
+// taken from a source of a script-src directive (the nonce the browser demands of script elements), after the
+// optional single quotes, and it is what follows "nonce-"
 //@ func parseNonce [C20]
+//@   assert before strings.HasPrefix#1: parts[0] == "script-src"
+//@   let SRC = "" @ entry
+//@   let SRC = arg0 @ before strings.HasPrefix#1
+//@   ensures nonce == "" || (isPrefix("nonce-", ghost(SRC)) && nonce == sub(ghost(SRC), 6, len(ghost(SRC))))
+//@   loop 1 invariant nonce == ""
+//@   loop 2 invariant nonce == ""
